@@ -28,6 +28,7 @@ POOL = {
     3: ('lib', '2019-01-01T00:00:00+00:00', None, [], False),
     4: ('lib2', None, None, [5], False),
     5: ('tool', '2018-01-01T00:00:00+00:00', '0', [], False),
+    6: ('util', '2017-01-01T00:00:00+00:00', '', [], False),       # field present but empty
 }
 # replaced variant of artifact 0: newer date, no REL
 VARIANT = {0: ('app', '2020-01-03T00:00:00+00:00', None, [3], True)}
@@ -99,6 +100,8 @@ PREDS = [
     ('meta.step == "dist"', lambda a: True),
     ('meta.package == "nothing"', lambda a: False),
     ('meta.package >= "lib"', lambda a: a['pkg'] >= 'lib'),
+    ('metaEnv.REL == ""', lambda a: a['rel'] == ''),
+    ('metaEnv.REL != ""', lambda a: a['rel'] != ''),
 ]
 ORDERS = [('', 'date', False), (' ORDER BY build.date ASC', 'date', True), (' ORDER BY meta.package DESC', 'pkg', False), (' ORDER BY metaEnv.REL', 'rel', False)]
 
@@ -108,7 +111,7 @@ def expressions(quick):
     for ptxt, pfn in PREDS:
         E.append((ptxt, pfn, None, None, False))
     for pi, (ptxt, pfn) in enumerate(PREDS):
-        if quick and pi not in (0, 1, 3, 5, 7): continue
+        if quick and pi not in (0, 1, 3, 5, 7, 11): continue
         for lim in (1, 2):
             for oi, (otxt, field, asc) in enumerate(ORDERS):
                 if quick and (lim, oi) not in ((1, 0), (1, 1), (2, 3)): continue
@@ -217,7 +220,7 @@ def history_worker(job):
     nhist = ncmd = nviol = 0
     outcomes = set()
     # actions that change the archive / index; the final action of every history is a checked command
-    acts_full = [('rm', i) for i in POOL] + [('repl', 0), ('scan',), ('cleanall',), ('cleanrel',)] + [('add', i) for i in POOL]
+    acts_full = [('rm', i) for i in POOL] + [('repl', 0), ('scan',), ('cleanall',), ('cleanrel',), ('dryall',)] + [('add', i) for i in POOL]
     acts_empty = [('add', i) for i in POOL] + [('scan',)]
     hists = []
     for init in ('empty', 'full', 'full-scanned'):
@@ -257,6 +260,12 @@ def history_worker(job):
             # the checked commands: every find, every clean --dry-run, and cleans (each on a fresh replay)
             cmds = [('find', el) for el in cmdexprs] + [('dry', el) for el in cmdexprs[::2]] + [('clean', el) for el in cmdexprs] + \
                    [('clean', el) for el in pairs[::3 if quick else 1]] + [('find', el) for el in pairs[::5 if quick else 1]]
+            # -n (no scan) works on the index as it is: where the history ends with a command that has just scanned the
+            # archive (scan, clean, clean --dry-run) the index is exact and -n must give the reference result too
+            mods = [j for j, a in enumerate(pre[1:]) if a[0] in ('add', 'rm', 'repl')]
+            scans = [j for j, a in enumerate(pre[1:]) if a[0] in ('scan', 'cleanall', 'cleanrel', 'dryall')]
+            if (scans and (not mods or scans[-1] > mods[-1])) or (pre[0] == 'full-scanned' and not mods):
+                cmds += [('find-n', el) for el in cmdexprs[::3]] + [('clean-n', el) for el in cmdexprs[1::3]]
             dirty = True
             os.makedirs(base, exist_ok=True)
             A = None
@@ -274,6 +283,7 @@ def history_worker(job):
                         elif a[0] == 'scan': run_cmd(['scan'])
                         elif a[0] == 'cleanall': run_cmd(['clean', 'meta.package == "app" LIMIT 1'])
                         elif a[0] == 'cleanrel': run_cmd(['clean', 'metaEnv.REL == "1"'])
+                        elif a[0] == 'dryall': run_cmd(['clean', '--dry-run', 'meta.package == "nothing"'])
                     dirty = False
                 for i in list(A.present):
                     if i not in A.actual(): del A.present[i]          # deleted by a clean of the history
@@ -281,16 +291,18 @@ def history_worker(job):
                 before = A.actual()
                 texts = [e[0] for e in el]
                 ncmd += 1
+                noscan = kind.endswith('-n')
+                if noscan: kind = kind[:-2]
                 if kind == 'find':
-                    st, out = run_cmd(['find'] + texts)
+                    st, out = run_cmd(['find'] + (['-n'] if noscan else []) + texts)
                 elif kind == 'dry':
                     st, out = run_cmd(['clean', '--dry-run'] + texts)
                 else:
-                    st, out = run_cmd(['clean'] + texts)
+                    st, out = run_cmd(['clean'] + (['-n'] if noscan else []) + texts)
                     dirty = True
                 after = A.actual()
                 outcomes.add((kind, st, len(before), len(after)))
-                desc = 'archive %s, history %s then %s %s' % (pre[0], [' '.join(map(str, a)) for a in pre[1:]], kind, texts)
+                desc = 'archive %s, history %s then %s%s %s' % (pre[0], [' '.join(map(str, a)) for a in pre[1:]], kind, ' -n' if noscan else '', texts)
                 vs = []
                 if st == 'internal':
                     vs.append(('command-raises:' + out.split(':')[0], out))
@@ -319,6 +331,7 @@ def history_worker(job):
                                 kind_ = 'clean-deletes-kept-artifact' if all(set(s) - after for s in valid_keep) else 'clean-keeps-garbage'
                                 vs.append((kind_, 'archive %s -> %s, reference keeps %s' % (sorted(before), sorted(after), [sorted(s) for s in valid_keep][:3])))
                 for key, what in vs:
+                    if noscan: key += ':noscan-on-fresh-index'
                     nviol += 1
                     if key not in viol: viol[key] = (key, desc, what)
     shutil.rmtree(base, ignore_errors=True)
@@ -341,7 +354,7 @@ def run(ctx):
              '(real doArchive code, in-process, index as left by the history), each compared with the reference retention model on the actual archive content',
         exhaustive=True, samples=[dict(history=['add 1', 'add 3', 'scan', 'rm 1'], command='clean meta.package == "app" LIMIT 1')],
         bounds=dict(history_depth=depth - 1, pool=len(POOL), expressions=len(expressions(quick)), predicates=[p[0] for p in PREDS], limits=[None, 1, 2], orders=[o[0] for o in ORDERS])),
-        assumptions=['-n (skip scan) is excluded: working on stale data is its documented purpose', 'ties on the sort key allow any valid choice',
+        assumptions=['-n (skip scan) is only checked where the history ends with a command that has just scanned the archive (on a stale index working on stale data is its documented purpose)', 'ties on the sort key allow any valid choice',
                      'comparisons other than ==/!= are only applied to fields present in every pool artifact'])
 
 
